@@ -276,3 +276,27 @@ pub proof fn lemma_rearranged_disjoint(t: Seq<CharSet>, s: Seq<CharSet>, perm: S
         }
     }
 }
+
+// a sorted list of disjoint non-empty intervals inside [0, MAX_CHAR] has at most MAX_CHAR + 1 members
+pub proof fn lemma_sorted_start_lower(l: Seq<CharSet>, i: int)
+    requires cp_sorted(l), 0 <= i < l.len(),
+    ensures l[i].start >= i,
+    decreases i,
+{
+    if i > 0 {
+        lemma_sorted_start_lower(l, i - 1);
+        assert(l[i - 1].end < l[i].start);
+        assert(cs_wf(l[i - 1]));
+    }
+}
+
+pub proof fn lemma_sorted_len_bound(l: Seq<CharSet>)
+    requires cp_sorted(l),
+    ensures l.len() <= MAX_CHAR + 1,
+{
+    if l.len() > 0 {
+        lemma_sorted_start_lower(l, l.len() - 1);
+        assert(cs_wf(l[l.len() - 1]));
+    }
+}
+
